@@ -535,6 +535,21 @@ def _m2_func(prog, rep, om, f, sm, rid, fault=None):
         track = explicit and not by_value(bexpr) and not is_public_param(bexpr) and base not in array_bases
         s.add(('F', base, e['_field'][1], e['_field'][0], track))
 
+    def borrow(s, local, rhs):
+        """local = base->field (directly or as an arm of ?:): the local may now hold the block the field owns, so a
+        later free(local) releases that field exactly as free(base->field) would."""
+        todo = [rhs]
+        while todo:
+            e = strip(todo.pop())
+            if e.get('kind') == 'ConditionalOperator':
+                todo.extend(children(e)[1:3])
+            elif e.get('kind') == 'MemberExpr' and e.get('_field') and e['_field'][1] in om.owns.get(e['_field'][0], ()):
+                bexpr = children(e)[0]
+                base = access_path(bexpr)
+                if base and base != local:
+                    track = not by_value(bexpr) and not is_public_param(bexpr) and base not in array_bases
+                    s.add(('B', base, e['_field'][1], local, e['_field'][0], track))
+
     def transfer(n, st):
         if not isinstance(n.ast, dict):
             return st
@@ -572,6 +587,8 @@ def _m2_func(prog, rep, om, f, sm, rid, fault=None):
                     for x in list(s):
                         if x[0] == 'A' and x[3] == p:
                             s.add(('F', x[1], x[2], x[4], False))
+                        elif x[0] == 'B' and x[3] == p:
+                            s.add(('F', x[1], x[2], x[4], x[5]))
                     rec, d = _rec_of(f, e)
                     if rec in om.owns and d == 1 and om.owns[rec]:
                         if is_libc_free and p not in array_bases:
@@ -604,7 +621,7 @@ def _m2_func(prog, rep, om, f, sm, rid, fault=None):
                     base = access_path(children(lhs)[0])
                     fld = lhs['_field'][1]
                     if base:
-                        s = {x for x in s if not (x[0] in ('F', 'A', '=', 'Z') and x[1] == base and x[2] == fld)}
+                        s = {x for x in s if not (x[0] in ('F', 'A', 'B', '=', 'Z') and x[1] == base and x[2] == fld)}
                         if not is_null(ev[2]):
                             s.add(('=', base, fld))
                         else:
@@ -616,7 +633,8 @@ def _m2_func(prog, rep, om, f, sm, rid, fault=None):
                 elif lp and lhs.get('kind') == 'DeclRefExpr':
                     check_out_of_reach(s, lp, ev[3].get('_line'), '%s is re-assigned' % lp)
                     s = {x for x in s if not (len(x) > 1 and (x[1] == lp or str(x[1]).startswith(lp + '->')))}
-                    s = {x for x in s if not (x[0] == 'A' and x[3] == lp)}
+                    s = {x for x in s if not (x[0] in ('A', 'B') and x[3] == lp)}
+                    borrow(s, lp, ev[2])
             elif ev[0] == 'update':
                 lp = access_path(ev[1])
                 if lp:
@@ -624,6 +642,8 @@ def _m2_func(prog, rep, om, f, sm, rid, fault=None):
             elif ev[0] == 'decl':
                 nm = ev[1].get('name')
                 s = {x for x in s if not (len(x) > 1 and (x[1] == nm or str(x[1]).startswith(nm + '->')))}
+                if ev[2] is not None:
+                    borrow(s, nm, ev[2])
         if n.kind == 'act' and n.ast.get('kind') == 'ReturnStmt':
             bases = {x[1] for x in s if x[0] == 'F' and x[4]}
             for b in sorted(bases):
